@@ -179,11 +179,11 @@ def stubbed(rkmod, tr, real_helpers=(), real_dense=True, real_refine=True, auton
         setp('_rk45_build_Q_cache', q45)
         setp('_rk45_eval_dense', e45)
 
-        def b853(f, t_old, y_old, f_old, y_new, f_new, hseg, Kseg, *rest):
-            return ('F', Kseg)
+        def b853(*a, **k):
+            return ('F', k['Kseg'] if 'Kseg' in k else a[7])
 
-        def b853h(t_old, y_old, f_old, y_new, f_new, hseg, Kseg, *rest):
-            return ('F', Kseg)
+        def b853h(*a, **k):
+            return ('F', k['Kseg'] if 'Kseg' in k else a[6])
 
         def e853(y_old, F_cache, power, x):
             K = F_cache[1]
